@@ -80,6 +80,39 @@ theorem init_spec (s : State) (hb : s.vars 0 ≠ 0) (hlen : 2 ≤ s.arr.length) 
     refine ⟨_, by simp [init, St.run, Ex.eval, bind, Option.bind, pure, b2i, hb, hc, hf, harr, setVar_vars]; rfl, ?_⟩
     refine ⟨?_, ?_, ?_, ?_, ?_, ?_, ?_, ?_, ?_, ?_, ?_⟩ <;> simp [setVar_vars, harr, cYY_BUFFER_NEW, hc, hf]
 
+/-- **yy_create_buffer(file, size)** — C13's "buffer of yy_buf_size + 2 bytes": the character memory has `size + 2` cells, the
+    two end marks stand at its front, the buffer is the scanner's own, empty, at the beginning of a line, new, reads from `file`
+    (refillable iff there is one), line 1 column 0 -/
+theorem create_spec (s : State) (harr : s.arr = []) (hsz : 0 ≤ s.vars 20) (hcur : s.vars 1 = 0) :
+    ∃ s', create.run s = (s', .returned 1) ∧ (s'.arr.length : Int) = s'.vars 21 + 2 ∧ s'.vars 21 = s.vars 20 ∧ s'.vars 22 = 1 ∧
+      s'.vars 2 = 0 ∧ s'.arr.take 2 = [0, 0] ∧ s'.vars 3 = 0 ∧ s'.vars 4 = 1 ∧ s'.vars 5 = cYY_BUFFER_NEW ∧ s'.vars 6 = s.vars 16 ∧
+      s'.vars 7 = (if s.vars 16 = 0 then 0 else 1) ∧ s'.vars 8 = 1 ∧ s'.vars 9 = 0 ∧ s'.vars 18 = s.vars 18 ∧ s'.log = s.log := by
+  obtain ⟨n, hn⟩ : ∃ n : Nat, s.vars 20 = n := ⟨(s.vars 20).toNat, by omega⟩
+  have e : ((n : Int) + 2).toNat = n + 2 := by omega
+  have hrep : List.replicate (n + 2) garbage = garbage :: garbage :: List.replicate n garbage := by
+    rw [List.replicate_succ, List.replicate_succ]
+  by_cases hf : s.vars 16 = 0
+  all_goals
+    refine ⟨_, by simp [create, St.run, Ex.eval, bind, Option.bind, pure, b2i, hcur, hf, harr, hn, e, hrep, setVar_vars]; rfl, ?_⟩
+    refine ⟨?_, ?_, ?_, ?_, ?_, ?_, ?_, ?_, ?_, ?_, ?_, ?_, ?_, ?_⟩ <;> simp [setVar_vars, cYY_BUFFER_NEW, hcur, hf, hn] <;> omega
+
+/-- **yy_delete_buffer(b)**: deleting NULL does nothing at all.  Otherwise the character memory is released exactly when it is
+    the scanner's own (memory handed to `yy_scan_buffer()` stays the caller's), then the structure, each once and in that order,
+    nothing else is released, the buffer's characters are not touched, and the slot of the current buffer is cleared exactly
+    when `b` was the current buffer (no handle to freed memory stays current) -/
+theorem delete_spec (s : State) :
+    (s.vars 0 = 0 → delete.run s = (s, .returned 0)) ∧
+    (s.vars 0 ≠ 0 → ∃ s', delete.run s = (s', .normal) ∧
+      s'.log = s.log ++ (if s.vars 22 = 0 then [] else [((1 : Nat), (1 : Int))]) ++ [(1, 0)] ∧
+      s'.vars 24 = (if s.vars 1 = 0 then s.vars 24 else 0) ∧ s'.arr = s.arr ∧
+      ∀ y, y ≠ 24 → s'.vars y = s.vars y) := by
+  refine ⟨fun hb => by simp [delete, St.run, Ex.eval, bind, Option.bind, pure, b2i, hb], fun hb => ?_⟩
+  by_cases hc : s.vars 1 = 0 <;> by_cases ho : s.vars 22 = 0
+  all_goals
+    refine ⟨_, by simp [delete, St.run, Ex.eval, bind, Option.bind, pure, b2i, hb, hc, ho, setVar_vars]; rfl, ?_⟩
+    refine ⟨?_, ?_, ?_, ?_⟩ <;> simp [setVar_vars, hc, ho]
+    try (intro y hy; simp [hy])
+
 /-- examples: a current buffer holding "ab", flushed; the same buffer re-initialised over a file that is a terminal -/
 def sEx : State :=
   { vars := fun y => if y = 0 then 1 else if y = 1 then 1 else if y = 2 then 2 else if y = 3 then 1 else if y = 6 then 5
